@@ -26,8 +26,8 @@ func TestVerif_C11(t *testing.T) {
 	if r.Thorough() {
 		small = []int{0, 1, 2, 3, 4, 5, 8, 16, 33, 64}
 	}
-	nBig, nDirected := r.Pick(4, 16), r.Pick(80, 200)
-	r.SetRule(fmt.Sprintf("write-cache: payload lengths %v with every request of the four modes (values 0..len+2) plus huge values, and %d larger payloads with %d boundary-directed requests each; objects put through Cache.Put or found as zstd / combined files at start; GetRangeStream, ReadPayloadRange, ReadObjectParts with and without header interception; requests the statement leaves undefined must get the same answer as from the cache's own FSTree; then batches of 2..8 range reads with overlapping answer lifetimes (seeded schedule of issue / read chunk / abandon / close) and rounds of concurrent reads, judged by the same resolver; distinct = (api, format, length class, mode, request shape, interception)", small, nBig, nDirected))
+	nBig, nDirected, nMB := r.Pick(4, 16), r.Pick(80, 200), r.Pick(2, 6)
+	r.SetRule(fmt.Sprintf("write-cache: payload lengths %v with every request of the four modes (values 0..len+2) plus huge values, and %d larger payloads with %d boundary-directed requests each, %d compressed objects whose zstd frame has many blocks (payloads of 0.3..1.5 MiB, compressed the way old nodes did) as zstd files and compressed combined members; objects put through Cache.Put or found as zstd / combined files at start; GetRangeStream, ReadPayloadRange, ReadObjectParts with and without header interception; requests the statement leaves undefined must get the same answer as from the cache's own FSTree; then batches of 2..8 range reads with overlapping answer lifetimes (seeded schedule of issue / read chunk / abandon / close) and rounds of concurrent reads, judged by the same resolver; distinct = (api, format, length class, mode, request shape, interception)", small, nBig, nDirected, nMB))
 
 	dir := filepath.Join(t.TempDir(), "wc")
 	cnr, owner := verifkit.RandCID(r.Rand("ids", 0)), verifkit.RandUser(r.Rand("ids", 1))
@@ -73,6 +73,16 @@ func TestVerif_C11(t *testing.T) {
 		}
 	}
 
+	// compressed objects whose frame has many blocks (vf11/c11_multiblock.go)
+	mbFiles, mbMembers := vf11.MultiBlockSet(r, "wc", cnr, owner, nMB)
+	for i, o := range append(append([]*vf11.Obj(nil), mbFiles...), mbMembers...) {
+		items = append(items, item{o, vf11.MultiBlockReqs(r, "wc", i, o, nDirected)})
+	}
+	nLarge := 3*nBig + 2*nMB // the items at the end of the list that have larger payloads
+	if err := vf11.PlantMultiBlock(dir, 1, mbFiles, mbMembers); err != nil {
+		t.Fatal(err)
+	}
+
 	// files that are in the cache directory before it is opened (depth of the cache's FSTree is 1)
 	for _, o := range zst {
 		if err := vf11.PlantFile(dir, 1, o.Addr, vf11.Zstd(o.Bin)); err != nil {
@@ -108,7 +118,7 @@ func TestVerif_C11(t *testing.T) {
 	}
 	r.Count("objects_put_through_cache", len(viaPut))
 	r.Sample(map[string]any{"part": "writecache", "objects": len(items), "first_object_len": len(items[0].o.Bin), "first_requests": fmt.Sprint(items[0].reqs[:min(6, len(items[0].reqs))])})
-	r.Count("objects_found_at_start", len(zst)+len(comb))
+	r.Count("objects_found_at_start", len(zst)+len(comb)+2*nMB)
 
 	k := 0
 	for _, it := range items {
@@ -176,7 +186,7 @@ func TestVerif_C11(t *testing.T) {
 	vf11.OverlapPhase(r, "wc", 0, r.Pick(300, 1500), r.Pick(2, 10), func(rng *rand.Rand) vf11.Call {
 		o := items[rng.IntN(len(items))].o
 		if rng.IntN(2) == 0 { // larger payloads half of the time
-			o = items[len(items)-1-rng.IntN(3*nBig)].o
+			o = items[len(items)-1-rng.IntN(nLarge)].o
 		}
 		req := vf11.RandReq(rng, o)
 		withHook := rng.IntN(2) == 0
